@@ -468,8 +468,8 @@ PROPS = {
         lean="AnyDB.Props.C03",
         lean_extra=["AnyDB.Props.C03Write", "AnyDB.Props.C03Refine"],
         runs=[
-            Run("vec", "plain", ["--mode", "plain"], (168, 50), (2800, 160), proj_vec, ["C03", "panic"], vec_features),
-            Run("vec", "refusals", ["--mode", "refusals"], (56, 40), (700, 100), proj_vec, ["C03", "panic"], vec_features),
+            Run("vec", "plain", ["--mode", "plain"], (168, 50), (840, 110), proj_vec, ["C03", "panic"], vec_features),
+            Run("vec", "refusals", ["--mode", "refusals"], (56, 40), (280, 70), proj_vec, ["C03", "panic"], vec_features),
         ],
         rule=VEC_RULE,
         assumptions=["pco / lz4_flex / zstd round-trip every page (sampled here, never proved)", "regions behave like independent byte vectors (C01)"],
@@ -481,7 +481,7 @@ PROPS = {
         lean="AnyDB.Props.C04",
         lean_extra=["AnyDB.Props.C04Raw", "AnyDB.Props.C04Record", "AnyDB.Props.C04Commit"],
         runs=[
-            Run("vec", "rollback", ["--mode", "rollback"], (196, 50), (3000, 140), proj_vec, ["C04", "C16", "panic"], vec_features),
+            Run("vec", "rollback", ["--mode", "rollback"], (196, 50), (900, 110), proj_vec, ["C04", "C16", "panic"], vec_features),
         ],
         rule=VEC_RULE,
         assumptions=["pco / lz4_flex / zstd round-trip every page", "the change directory is only modified by the vector itself"],
@@ -514,8 +514,8 @@ PROPS = {
     "C07": dict(
         lean="AnyDB.Props.C07",
         runs=[
-            Run("vec", "plain", ["--mode", "plain"], (168, 50), (2800, 160), proj_vec, ["C07", "C03", "panic"], vec_features),
-            Run("vec", "rollback", ["--mode", "rollback"], (70, 40), (1000, 120), proj_vec, ["C07", "panic"], vec_features),
+            Run("vec", "plain", ["--mode", "plain"], (168, 50), (700, 110), proj_vec, ["C07", "C03", "panic"], vec_features),
+            Run("vec", "rollback", ["--mode", "rollback"], (70, 40), (300, 90), proj_vec, ["C07", "panic"], vec_features),
         ],
         rule=VEC_RULE,
         assumptions=["pco / lz4_flex / zstd round-trip every page bit-exactly (sampled on extreme integers and float bit patterns incl. NaN payloads, never proved)"],
@@ -526,8 +526,8 @@ PROPS = {
     "C16": dict(
         lean="AnyDB.Props.C16",
         runs=[
-            Run("vec", "faults", ["--mode", "faults"], (196, 50), (3000, 140), proj_vec, ["C16", "C13", "panic"], vec_features),
-            Run("vec", "rollback", ["--mode", "rollback"], (84, 50), (1000, 140), proj_vec, ["C16", "panic"], vec_features),
+            Run("vec", "faults", ["--mode", "faults"], (196, 50), (800, 110), proj_vec, ["C16", "C13", "panic"], vec_features),
+            Run("vec", "rollback", ["--mode", "rollback"], (84, 50), (350, 110), proj_vec, ["C16", "panic"], vec_features),
         ],
         rule=VEC_RULE + "; the fault stream deletes the record of the current stamp, truncates it (0, 31, len-1, random offset) or overwrites one of its five length fields with an out-of-range value, then rolls back",
         assumptions=["single-file faults on the change directory only; a changed value byte inside a record is outside the fault model (no checksums)"],
@@ -541,7 +541,7 @@ PROPS = {
             Run("codec", "decoders", [], (160, 60), (3000, 120), proj_all, ["C17", "panic"], codec_features),
             # the change-record decoder (base/change/cursor.rs) is not public: it is driven through rollback over records whose
             # length fields were damaged on disk (values up to 2^63 and u64::MAX: size computations must refuse, not wrap or panic)
-            Run("vec", "change-records", ["--mode", "faults"], (84, 50), (1200, 140), proj_vec, ["C16", "C17", "panic"], vec_features),
+            Run("vec", "change-records", ["--mode", "faults"], (84, 50), (350, 110), proj_vec, ["C16", "C17", "panic"], vec_features),
         ],
         rule=CODEC_RULE,
         assumptions=["Rust's String::from_utf8 accepts exactly the well-formed sequences of Unicode Table 3-7 (the model's validator; differential-tested)", "Page and HeaderInner decoders are not public: their byte layout is proved here and exercised through the vec engine (C03/C07) and import (C14)"],
@@ -615,9 +615,9 @@ PROPS = {
         lean="AnyDB.Props.C20",
         lean_extra=["AnyDB.Props.C20Undo"],
         runs=[
-            Run("vec", "access-plain", ["--mode", "plain", "--access", "--reads"], (56, 40), (1400, 150), proj_vec_x, ["C20", "panic"], vec_access_features),
-            Run("vec", "access-rollback", ["--mode", "rollback", "--access", "--reads"], (84, 50), (2000, 140), proj_vec_x, ["C20", "panic"], vec_access_features),
-            Run("vec", "access-faults", ["--mode", "faults", "--access"], (28, 40), (800, 120), proj_vec_x, ["C20", "panic"], vec_access_features),
+            Run("vec", "access-plain", ["--mode", "plain", "--access", "--reads"], (56, 40), (280, 110), proj_vec_x, ["C20", "panic"], vec_access_features),
+            Run("vec", "access-rollback", ["--mode", "rollback", "--access", "--reads"], (84, 50), (400, 110), proj_vec_x, ["C20", "panic"], vec_access_features),
+            Run("vec", "access-faults", ["--mode", "faults", "--access"], (28, 40), (140, 90), proj_vec_x, ["C20", "panic"], vec_access_features),
         ],
         rule=VEC_RULE + "; the guarded access tap is on: every Reader::unchecked_read (offset, length), every pointer handed out by Reader::prefixed, every raw pointer dereference of the vecdb read sites (read_from_ptr of both raw strategies, the two bulk slices, the zero-copy reference read) and every positioned read of the file-IO sources is recorded and, after each request, compared with the start and length of the region it was made for (the reader's snapshot, and the current length for read-only requests); about one request in six is `clonereads`: every range/point/cursor/sorted API of a read-only clone plus both stored-only scan back-ends, in ANY state (expanded, truncation pending, deleted slots, dirty); one in five `reads` (the C08 battery on the read-write vector)",
         assumptions=["histories are those of C03 (plain edits and writes) and of C04 (edits, commits, rollbacks, re-imports, damaged records); a plain write()/flush() between a commit and the rollback of that commit is in neither (the retained record no longer describes the region) and is not generated — see DESIGN.md, observation O1",
@@ -630,8 +630,8 @@ PROPS = {
         lean="AnyDB.Props.C08",
         lean_extra=["AnyDB.Props.C08Dirty", "AnyDB.Props.C08Pages"],
         runs=[
-            Run("vec", "plain-reads", ["--mode", "plain", "--reads"], (140, 50), (2400, 150), proj_vec, ["C08", "panic"], vec_features),
-            Run("vec", "rollback-reads", ["--mode", "rollback", "--reads"], (84, 50), (1400, 120), proj_vec, ["C08", "panic"], vec_features),
+            Run("vec", "plain-reads", ["--mode", "plain", "--reads"], (140, 50), (600, 110), proj_vec, ["C08", "panic"], vec_features),
+            Run("vec", "rollback-reads", ["--mode", "rollback", "--reads"], (84, 50), (350, 100), proj_vec, ["C08", "panic"], vec_features),
         ],
         rule=VEC_RULE + "; about one request in five is `reads <seed>`: 24 ranges with ends drawn from {0, 1, stored-1, stored, stored+1, len-1, len, len+1, page-1, page, page+1, 2^63-1} or uniformly (reversed, empty and out-of-range included) and 12 point reads, each through every read API of the read-write vector, and on clean states also of its read-only clone and the two stored-only scan back-ends; cursor scripts and sorted reads on hole-free states",
         assumptions=["cursor and sorted reads address by index only on vectors without deleted slots (the chunked refill of a cursor compacts deleted slots away): they are exercised on hole-free states"],
@@ -642,7 +642,7 @@ PROPS = {
     "C05": dict(
         lean="AnyDB.Props.C05",
         runs=[
-            Run("crash", "crash-images", ["--mixes", "6"], (96, 30), (1600, 70), proj_events, ["C05", "panic"], crash_features, driver_engine="rawdb"),
+            Run("crash", "crash-images", ["--mixes", "6"], (96, 30), (400, 50), proj_events, ["C05", "panic"], crash_features, driver_engine="rawdb"),
         ],
         rule=RAWDB_RULE + "; histories are generated as for C01/C02 (files kept near 1 MiB, writes ≤ 20 kB) with a flush early in the case; after the first completed flush EVERY event boundary is a crash point; per point: sync-only image, all-written image, for every dirty metadata page three single-page deviations, and 6 (quick) random per-page mixtures of all versions since the last sync of each file; the real Database::open runs on every image",
         assumptions=["4 KiB page writes are atomic; file-length changes are durable in order; fdatasync makes every page stored through the shared mapping durable; a page not stored to since the last sync keeps its synced content (the OS contract of DESIGN.md §7)", "hook H2 (durability event tap) reports every store / set_len / sync / punch"],
@@ -654,7 +654,7 @@ PROPS = {
         lean="AnyDB.Props.C12",
         lean_extra=["AnyDB.Props.C12Run"],
         runs=[
-            Run("crash", "compact", ["--mixes", "3"], (64, 30), (1000, 70), proj_events, ["C12", "C05", "panic"], crash_features, driver_engine="rawdb"),
+            Run("crash", "compact", ["--mixes", "3"], (64, 30), (260, 50), proj_events, ["C12", "C05", "panic"], crash_features, driver_engine="rawdb"),
             # "whatever other threads are writing meanwhile": compact as thread A parked at every lock event, and compact run by
             # thread B while A is parked inside each of its 13 operations (the directed schedules of C10, restricted to compact)
             Run("c10", "compact-schedules", ["--only", "compact"], (16, 3), (16, 1), proj_after_L, ["C10", "panic"], c10_features, clean=False),
@@ -681,8 +681,8 @@ PROPS = {
         runs=[
             Run("rawdb", "refusals", ["--malformed"], (200, 40), (3000, 120), proj_state, ["C13", "panic"], rawdb_features),
             Run("rawdb", "held", ["--malformed", "--held"], (60, 20), (600, 60), proj_state, ["C13", "panic"], rawdb_features, clean=False),
-            Run("vec", "vec-refusals", ["--mode", "refusals"], (84, 40), (1400, 100), proj_vec, ["C13", "panic"], vec_features),
-            Run("vec", "vec-faults", ["--mode", "faults"], (84, 40), (1400, 100), proj_vec, ["C13", "panic"], vec_features),
+            Run("vec", "vec-refusals", ["--mode", "refusals"], (84, 40), (400, 80), proj_vec, ["C13", "panic"], vec_features),
+            Run("vec", "vec-faults", ["--mode", "faults"], (84, 40), (400, 80), proj_vec, ["C13", "panic"], vec_features),
         ],
         rule=RAWDB_RULE + "; about one request in four is a refusal chosen from the current state; the 'held' stream ends each case with a removal while an extra handle is alive",
         assumptions=["reference counts are a run-time notion: the model takes `extra handle alive` as an input of remove"],
